@@ -368,7 +368,9 @@ func (v *valuesVisitor) valueSatisfiesScalarInt(value ast.Value, definitionTypeR
 	isInt := value.Kind == ast.ValueKindInteger
 
 	if isInt {
-		isValidInt32 = v.operation.IntValueValidInt32(value.Ref)
+		// IntValueValidInt32 looks at the digits only: the most negative value is one larger in magnitude
+		isValidInt32 = v.operation.IntValueValidInt32(value.Ref) ||
+			(v.operation.IntValueIsNegative(value.Ref) && bytes.Equal(v.operation.IntValueRaw(value.Ref), []byte("2147483648")))
 	}
 
 	if isInt && isValidInt32 {
